@@ -134,6 +134,11 @@ class FSimEnv:
 
             try:
                 with pools.FunctorMap(f, self.cfg.n_workers) as m:
+                    made = {}
+                    if self.cfg.input_kind % 4 == 3 and not self.cfg.idle_gen:
+                        # all call objects are created first and consumed afterwards, one after the other
+                        for j, (n_, cs_) in enumerate(self.cfg.calls):
+                            made[j] = m(iter([core.pool_input(j, i, self.cfg.none_inputs) for i in range(n_)]), cs_)
                     for k, (n, cs) in enumerate(self.cfg.calls):
                         res = []
                         self.results.append(res)
@@ -141,7 +146,9 @@ class FSimEnv:
                             ghosts = getattr(self, "ghosts", [])
                             ghosts.append(m(iter([900 + k, 901 + k, 902 + k]), cs))
                             self.ghosts = ghosts
-                        it = m(shaped(k, (core.pool_input(k, i, self.cfg.none_inputs) for i in range(n))), cs)
+                        it = made.get(k)
+                        if it is None:
+                            it = m(shaped(k, (core.pool_input(k, i, self.cfg.none_inputs) for i in range(n))), cs)
                         if self.cfg.exact and n > 0:
                             for _ in range(n):
                                 res.append(next(it))
